@@ -91,7 +91,8 @@ pub fn hostile_history(rng: &mut Rng, pools: &Pools, corpus: &[Vec<Vec<u8>>]) ->
     } else if fam < 65 {
         family = "mut";
         let mut ex = Exporter::new();
-        let cfg = Cfg::default();
+        let mut cfg = Cfg::default();
+        cfg.twins = rng.chance(1, 6);
         let n = 1 + rng.usize(8);
         let mut prev: Vec<u8> = vec![];
         for _ in 0..n {
@@ -197,6 +198,7 @@ pub fn hostile_history(rng: &mut Rng, pools: &Pools, corpus: &[Vec<Vec<u8>>]) ->
         let mut ex = Exporter::new();
         let mut cfg = Cfg::default();
         cfg.count_is_flowsets = rng.chance(1, 2);
+        cfg.twins = rng.chance(1, 6);
         let n = 1 + rng.usize(6);
         for _ in 0..n {
             let k = if rng.chance(1, 4) { 1 + rng.usize(4) } else { 1 };
